@@ -8,6 +8,7 @@ from sa import astutil as A
 from sa import cfg as C
 from sa import dataflow as D
 from sa.index import AnalysisError
+from sa import surface as S
 from sa.rules import c07, c17
 
 PROP = 'C18'
@@ -24,7 +25,7 @@ EXPLANATION = (
     'assembly gives every positional parameter exactly one outcome; (g) '
     'Functor._on_change processes every update of a batch.  Agreement with '
     'the interpreter\'s binding rules is differential and not decided.')
-FLOORS = {'C18.a': 4, 'C18.b': 1, 'C18.c': 1, 'C18.d': 2, 'C18.e': 1, 'C18.f': 1, 'C18.g': 1, 'C18.h': 1, 'C18.i': 2, 'C18.j': 2, 'C18.k': 1}
+FLOORS = {'C18.a': 4, 'C18.b': 1, 'C18.c': 1, 'C18.d': 2, 'C18.e': 1, 'C18.f': 1, 'C18.g': 1, 'C18.h': 1, 'C18.i': 2, 'C18.j': 2, 'C18.k': 1, 'C18.l': 3}
 FILES = ['pyglove/core/symbolic/functor.py', 'pyglove/core/symbolic/class_wrapper.py',
          'pyglove/core/symbolic/symbolize.py', 'pyglove/core/typing/callable_signature.py',
          'pyglove/core/coding/function_generation.py', 'pyglove/core/symbolic/object.py']
@@ -82,8 +83,9 @@ def rule_a(ctx):
   # signature(): dispatch exhaustive over the 5 inspect kinds
   fc = None
   for cand in idx.module(CSIG.rstrip('.')).funcs.values():
-    if cand.qualname.startswith('Signature.') and '<locals>' not in cand.qualname and \
-        'param.kind == inspect.Parameter' in A.unparse(cand.node, 40000):
+    if cand.qualname.startswith('Signature.') and '<locals>' not in cand.qualname and any(
+        isinstance(n, ast.Compare) and isinstance(n.left, ast.Attribute) and n.left.attr == 'kind'
+        and A.unparse(n.comparators[0]).startswith('inspect.Parameter.') for n in ast.walk(cand.node)):
       fc = cand
   if fc is None:
     raise AnalysisError('signature extractor dispatch on param.kind vanished')
@@ -95,8 +97,11 @@ def rule_a(ctx):
   # make_function renders args, *varargs (or bare *), kwonly, **varkw
   mf = idx.func(CSIG + 'Signature.make_function')
   t = A.unparse(mf.node, 20000)
-  need = ['self.args', 'self.varargs', 'self.kwonlyargs', 'self.varkw', "arg_prefix='*'", "arg_prefix='**'", "args.append('*')"]
+  need = ['self.args', 'self.varargs', 'self.kwonlyargs', 'self.varkw', "arg_prefix='*'", "arg_prefix='**'"]
   miss = [n for n in need if n not in t]
+  if not any(isinstance(c.func, ast.Attribute) and c.func.attr in ('append', 'extend') and c.args
+             and '*' in [A.const_str(x) for x in ast.walk(c.args[0])] for c in A.calls_in(mf.node)):
+    miss.append("bare '*' separator")
   ctx.ob('C18.a', mf.fq + '#render', not miss,
          'the generated signature renders positional, *varargs (or a bare *), keyword-only and **varkw parts',
          mf.loc, f'missing parts: {miss}')
@@ -220,7 +225,11 @@ def rule_e(ctx):
 def rule_f(ctx):
   idx = ctx.index
   f = idx.func(FN + '_parse_call_time_overrides')
-  loops = [n for n in ast.walk(f.node) if isinstance(n, ast.For) and A.unparse(n.iter) == 'signature.args']
+  sig_locals = {nm for st in ast.walk(f.node) if isinstance(st, ast.Assign)
+                and A.unparse(st.value) in ('self.__signature__', 'self.signature')
+                for nm in A.assigned_names(st.targets[0])} | {'self.__signature__', 'self.signature'}
+  loops = [n for n in ast.walk(f.node) if isinstance(n, ast.For) and isinstance(n.iter, ast.Attribute)
+           and n.iter.attr == 'args' and A.unparse(n.iter.value) in sig_locals]
   if not loops:
     raise AnalysisError('_parse_call_time_overrides: loop over signature.args vanished')
   lp = loops[0]
@@ -251,35 +260,48 @@ def rule_f(ctx):
          'every positional parameter contributes exactly one positional value (bound, overridden or '
          'default) or is reported missing', f.loc, '; '.join(problems))
   # the positional list only grows (append/extend): once a parameter has its
-  # value, nothing removes or replaces it
+  # value, nothing removes or replaces it.  The locals are found by their role:
+  # the function returns (<positional list>, <keyword dict>).
+  rt = [r.value for r in ast.walk(f.node) if isinstance(r, ast.Return) and isinstance(r.value, ast.Tuple)
+        and len(r.value.elts) == 2 and all(isinstance(e, ast.Name) for e in r.value.elts)]
+  if not rt:
+    raise AnalysisError('_parse_call_time_overrides no longer returns (positional list, keyword dict)')
+  LA, KA = rt[0].elts[0].id, rt[0].elts[1].id
   bad = []
   for x in ast.walk(f.node):
     if isinstance(x, ast.Delete):
       for t in x.targets:
-        if isinstance(t, ast.Subscript) and A.dotted(t.value) == 'list_args':
+        if isinstance(t, ast.Subscript) and A.dotted(t.value) == LA:
           bad.append(f'del {A.unparse(t)} (line {x.lineno})')
-    elif isinstance(x, ast.Call) and (A.call_name(x) or '').startswith('list_args.') and \
+    elif isinstance(x, ast.Call) and (A.call_name(x) or '').startswith(LA + '.') and \
         (A.call_name(x) or '').split('.')[1] not in ('append', 'extend'):
       bad.append(f'{A.call_name(x)}() (line {x.lineno})')
     elif isinstance(x, (ast.Assign, ast.AugAssign)):
       for t in A.stmt_targets(x):
-        if isinstance(t, ast.Subscript) and A.dotted(t.value) == 'list_args':
+        if isinstance(t, ast.Subscript) and A.dotted(t.value) == LA:
           bad.append(f'store to {A.unparse(t)} (line {x.lineno})')
-        if isinstance(t, ast.Name) and t.id == 'list_args' and not (
+        if isinstance(t, ast.Name) and t.id == LA and not (
             isinstance(x, ast.Assign) and isinstance(x.value, ast.List) and not x.value.elts):
-          bad.append(f're-assignment of list_args (line {x.lineno})')
+          bad.append(f're-assignment of {LA} (line {x.lineno})')
   ctx.ob('C18.f', f.fq + '#monotone', not bad,
          'the assembled positional list only grows: no positional value is dropped or replaced '
          'after assembly', f.loc, '; '.join(bad))
   # prebound varargs are appended after the positionals
-  t = A.unparse(f.node, 20000)
-  ok = 'keyword_args.pop(signature.varargs.name, None)' in t and 'list_args.extend(varargs)' in t
+  # the pre-bound varargs are taken OUT of the keyword dict (they must not be passed
+  # twice) and whatever varargs there are extend the positional list last
+  pops = [c for c in A.calls_in(f.node) if A.call_name(c) == KA + '.pop' and c.args
+          and 'varargs' in A.unparse(c.args[0])]
+  exts = [c for c in A.calls_in(f.node) if A.call_name(c) == LA + '.extend' and c.args]
+  last_app = max([c.lineno for c in A.calls_in(f.node) if A.call_name(c) == LA + '.append'] or [0])
+  ok = bool(pops) and bool(exts) and all(c.lineno > last_app for c in exts)
   ctx.ob('C18.f', f.fq + '#varargs', ok, 'call-time or pre-bound varargs are appended after the positionals',
          f.loc, 'varargs assembly changed')
   # __call__: return value check and both call forms
   cf = idx.func(FN + '__call__')
-  t = A.unparse(cf.node, 8000)
-  ok = 'self._call(*args, **kwargs)' in t and 'self._parse_call_time_overrides(*args, **kwargs)' in t
+  def fwd(name):
+    return any(A.call_name(c) == name and any(isinstance(a, ast.Starred) for a in c.args)
+               and any(k.arg is None for k in c.keywords) for c in A.calls_in(cf.node))
+  ok = fwd('self._call') and fwd('self._parse_call_time_overrides')
   ctx.ob('C18.f', cf.fq, ok, '__call__ assembles arguments through _parse_call_time_overrides and calls _call with them',
          cf.loc, '__call__ changed shape')
 
@@ -372,11 +394,15 @@ def rule_i(ctx):
     problems.append('the keyword-argument loop vanished')
   else:
     kv = A.assigned_names(loops[0].ast.target)
+    # the dict the loop fills: `<D>[<keyword>] = ...` inside the same loop
+    filled = {st.targets[0].value.id for st in ast.walk(loops[0].ast) if isinstance(st, ast.Assign)
+              and isinstance(st.targets[0], ast.Subscript) and isinstance(st.targets[0].value, ast.Name)
+              and isinstance(st.targets[0].slice, ast.Name) and st.targets[0].slice.id in kv}
     tests = [t for t in g.nodes if t.kind == 'test' and isinstance(t.ast, ast.Compare) and len(t.ast.ops) == 1
              and isinstance(t.ast.ops[0], ast.In) and isinstance(t.ast.left, ast.Name) and t.ast.left.id in kv
-             and A.unparse(t.ast.comparators[0]) == 'field_args']
+             and A.unparse(t.ast.comparators[0]) in filled]
     if not tests:
-      problems.append('no membership test `<keyword> in field_args`')
+      problems.append('no membership test `<keyword> in <the collected arguments>`')
     for t in tests:
       if not g.always_raises_from(t, 'true'):
         problems.append('a keyword that repeats a positional argument does not always raise TypeError (the check also '
@@ -478,4 +504,5 @@ def run(ctx):
   rule_i(ctx)
   rule_j(ctx)
   rule_k(ctx)
+  S.typecheck_flag_obligations(ctx, 'C18.l', ['pyglove/core/symbolic/functor.py', 'pyglove/core/symbolic/class_wrapper.py', 'pyglove/core/symbolic/object.py'], floor=3)
   ctx.assume('agreement with the interpreter\'s argument binding is differential by nature: not decided')
